@@ -240,6 +240,29 @@ pub fn run(tier: &str, seed: u64, replay: Option<String>) -> i32 {
         }
     }
     let n_single = steps.len() - bases.len();
+    // ---- sane variants: the editor moves the whole building up or down (a ground floor becomes
+    // a basement of several depths), changes the climate zone, scales the heights; the result is
+    // a different sane model, so every number must still be finite
+    let mut n_variants = 0usize;
+    for b in &bases {
+        for dz in [-0.3f64, -0.6, -1.0, -1.5, -2.0, -3.0, -4.5, -6.0, -12.0, 3.0, 30.0] {
+            for wg in [false, true] {
+                if dz > 0.0 && wg {
+                    continue;
+                }
+                let mut es = vec![MEdit::MoveBuildingZ { dz, walls_to_ground: wg }];
+                if n_variants % 3 == 1 {
+                    es.push(MEdit::SetClimate { zone: rng.pick(modelfault::CLIMATES).to_string() });
+                }
+                let mut st = json!({"base": b, "edits": es, "what": "variant", "require_all": false});
+                if !b.starts_with("min:") {
+                    st["probe_base"] = json!(b);
+                }
+                steps.push(st);
+                n_variants += 1;
+            }
+        }
+    }
     // ---- 2..3 simultaneous edits
     let n_multi = if thorough { 8000 } else { 400 };
     for _ in 0..n_multi {
@@ -273,8 +296,8 @@ pub fn run(tier: &str, seed: u64, replay: Option<String>) -> i32 {
         }
     }
     eprintln!(
-        "[C14] {} bases; single-edit space {} ({} cells); running {} single, {} multi, {} session steps; healthy probe (the intact base model, else {}) after every step",
-        bases.len(), space, n_cells, n_single, n_multi, n_session_steps, PROBE
+        "[C14] {} bases; single-edit space {} ({} cells); running {} single, {} sane-variant, {} multi, {} session steps; healthy probe (the intact base model, else {}) after every step",
+        bases.len(), space, n_cells, n_single, n_variants, n_multi, n_session_steps, PROBE
     );
     let out = modelrun::run_steps(&steps, &cfg(), &scratch.dir);
 
@@ -505,6 +528,7 @@ pub fn run(tier: &str, seed: u64, replay: Option<String>) -> i32 {
     extra.insert("single_edit_space".into(), json!(space));
     extra.insert("single_edit_cells".into(), json!(n_cells));
     extra.insert("single_edits_exhaustive".into(), json!(thorough));
+    extra.insert("sane_variant_steps".into(), json!(n_variants));
     extra.insert("step_classes".into(), json!(classes));
     extra.insert("fault_kinds_fired".into(), json!(fired));
     extra.insert("recomputes_inside_sanity_predicate".into(), json!(sane_n));
@@ -527,7 +551,7 @@ pub fn run(tier: &str, seed: u64, replay: Option<String>) -> i32 {
         level: "exploration".into(),
         evaluations,
         distinct_nontrivial: descriptors.len() as u64,
-        rule: "history of (edit, recompute, healthy probe) steps in simulated long-lived processes: every single structural edit (delete key / array item, empty / duplicate / truncate array, redirect id to nil / fresh / other-collection id, zero / negate number) of every node of the shipped models and of the minimal editor-built models (thorough: all; quick: up to 40 per (generic path, edit kind) cell, all for the minimal models), seeded sets of 2..3 edits, seeded editor sessions from the empty model (every prefix recomputed). I1: the recompute returns; I2: the probe after every step equals its isolated reference; I3: inside the strict sanity predicate nothing non-finite and the indicators JSON loads back. Non-trivial and distinct = distinct (base, generic edit paths, content hash) whose mutated JSON loaded and differed from the base".into(),
+        rule: "history of (edit, recompute, healthy probe) steps in simulated long-lived processes: every single structural edit (delete key / array item, empty / duplicate / truncate array, redirect id to nil / fresh / other-collection id, zero / negate number) of every node of the shipped models and of the minimal editor-built models (thorough: all; quick: up to 40 per (generic path, edit kind) cell, all for the minimal models), sane variants (the whole building moved down by 0.3..12 m or up, with or without its windowless exterior walls becoming ground-contact, optionally another climate zone), seeded sets of 2..3 edits, seeded editor sessions from the empty model (every prefix recomputed). I1: the recompute returns; I2: the probe after every step equals its isolated reference; I3: inside the strict sanity predicate nothing non-finite and the indicators JSON loads back. Non-trivial and distinct = distinct (base, generic edit paths, content hash) whose mutated JSON loaded and differed from the base".into(),
         samples,
         exhaustive: false,
         extra,
